@@ -74,6 +74,16 @@ Theorem C16_getitem_many V c (d : amap V) ks : (forall k, In k ks -> aget k d <>
 Proof. intros H. split; [apply d_getlist_spec|apply d_gettuple_spec]; auto. Qed.
 Print Assumptions C16_getitem_many.
 
+(* item access of an absent key raises KeyError; attribute access mirrors item access (AttributeError when absent) *)
+Theorem C16_getitem_absent_raises V c (d : amap V) ks k : In k ks -> aget k d = None ->
+  d_getlist c d ks = DErr "KeyError" /\ d_gettuple d ks = DErr "KeyError".
+Proof. exact (d_getitem_absent c d ks k). Qed.
+Print Assumptions C16_getitem_absent_raises.
+Theorem C16_attr_mirrors_item V (d : amap V) k :
+  d_attr d k = match aget k d with Some v => DVals [v] | None => DErr "AttributeError" end.
+Proof. reflexivity. Qed.
+Print Assumptions C16_attr_mirrors_item.
+
 (* d + o == {**d, **o} (leaf values; other of a recognised mapping type when d is a Dict): lookups
    prefer o, keys are d's in order followed by the new keys of o in order *)
 Theorem C16_add_is_update V c (d : amap V) oc (o : amap V) : NoDup (akeys d) -> NoDup (akeys o) ->
